@@ -142,7 +142,8 @@ func (s *JSchema) AddType(name string, sc schema.Schema) (err error) {
 			return errs.ErrLoadError.F(err)
 		}
 
-		s.Inner.AddNamedType(name, typ.Inner, s.File, 0)
+		// Positions inside the type refer to the type's own text.
+		s.Inner.AddNamedType(name, typ.Inner, typ.File, 0)
 		s.UserTypeCollection[name] = typ
 	case *regex.RSchema:
 		typSc, err := FromRSchema(typ)
